@@ -234,13 +234,17 @@ Section SpAll.
     end.
 End SpAll.
 
-Lemma spaces_S defs f e trace within :
-  spaces defs (S f) e trace within =
+Definition follow_of (defs : list (string * expr)) (juxt : bool) : option (list (string * expr)) :=
+  if juxt then None else Some defs.
+
+Lemma spaces_S defs f e trace within juxt :
+  spaces defs (S f) e trace within juxt =
   match e with
   | Sequence cs _ =>
-      do _ <- sp_all (fun c => spaces defs f c trace within) cs;
+      do _ <- sp_all (fun c => spaces defs f c trace within false) cs;
       if within then
-        match adjacent_terminals cs with
+        do adj <- adjacent_terminals (follow_of defs juxt) f cs;
+        match adj with
         | Some (l, r) => Err (SubwordSpaces l r trace)
         | None => Ok tt
         end
@@ -249,12 +253,35 @@ Lemma spaces_S defs f e trace within :
   | NontermRef n _ sp =>
       match assoc n defs with
       | None => Ok tt
-      | Some rhs => spaces defs f rhs (trace ++ [sp]) within
+      | Some rhs => spaces defs f rhs (trace ++ [sp]) within false
       end
-  | Subword c _ _ => spaces defs f c trace true
-  | Alternative cs _ | Fallback cs _ => sp_all (fun c => spaces defs f c trace within) cs
-  | Optional c _ | Many1 c _ => spaces defs f c trace within
+  | Subword c _ _ => spaces defs f c trace true true
+  | Alternative cs _ | Fallback cs _ => sp_all (fun c => spaces defs f c trace within false) cs
+  | Optional c _ | Many1 c _ => spaces defs f c trace within false
   | DistDescr _ _ _ => Panic "check_subword_spaces: DistributiveDescription"
+  end.
+Proof. reflexivity. Qed.
+
+Lemma expr_head_S follow f e :
+  expr_head follow (S f) e =
+  match e with
+  | NontermRef n _ _ =>
+      match followed follow n with Some rhs => expr_head follow f rhs | None => Ok e end
+  | Sequence (c :: _) _ => expr_head follow f c
+  | Subword c _ _ => expr_head follow f c
+  | _ => Ok e
+  end.
+Proof. reflexivity. Qed.
+
+Lemma expr_tail_S follow f e :
+  expr_tail follow (S f) e =
+  match e with
+  | NontermRef n _ _ =>
+      match followed follow n with Some rhs => expr_tail follow f rhs | None => Ok e end
+  | Sequence cs _ =>
+      match last_opt cs with Some c => expr_tail follow f c | None => Ok e end
+  | Subword c _ _ => expr_tail follow f c
+  | _ => Ok e
   end.
 Proof. reflexivity. Qed.
 
@@ -263,11 +290,88 @@ Definition list_size (cs : list expr) : nat := fold_right (fun c n => expr_size 
 Lemma expr_size_pos e : (1 <= expr_size e)%nat.
 Proof. destruct e; cbn; lia. Qed.
 
+Lemma list_size_In c cs : In c cs -> (expr_size c <= list_size cs)%nat.
+Proof.
+  induction cs as [|x l IH]; [intros []|]. unfold list_size in *. cbn.
+  intros [H|H]; [subst; lia|]. apply IH in H. lia.
+Qed.
+
+Lemma last_opt_In cs c : last_opt cs = Some c -> In c cs.
+Proof.
+  unfold last_opt. intro H. apply in_rev. destruct (rev cs); [discriminate|].
+  inversion H. left. reflexivity.
+Qed.
+
 Lemma sp_all_fine rec cs :
   Forall (fun c => fine (rec c)) cs -> fine (sp_all rec cs).
 Proof.
   induction 1; cbn; [exact I|]. destruct (rec x); cbn; try assumption; try contradiction.
 Qed.
+
+(** [expr_head]/[expr_tail] never fail; they only need fuel. *)
+Definition is_okr {A} (x : res A) : Prop := exists a, x = Ok a.
+
+Section HeadTailOk.
+  Variable follow : option (list (string * expr)).
+  Variable extra : nat.
+  Variable Q : string -> Prop.
+  Hypothesis HQh : forall n rhs f, Q n -> followed follow n = Some rhs -> (f >= extra)%nat ->
+                                   is_okr (expr_head follow f rhs).
+  Hypothesis HQt : forall n rhs f, Q n -> followed follow n = Some rhs -> (f >= extra)%nat ->
+                                   is_okr (expr_tail follow f rhs).
+
+  Lemma expr_head_ok e : forall f,
+    (forall c, In c (all_refs e) -> Q c) -> (f >= expr_size e + extra)%nat ->
+    is_okr (expr_head follow f e).
+  Proof.
+    induction e using expr_ind'; intros f Hc Hf;
+      (destruct f as [|f]; [cbn in Hf; lia|]); rewrite expr_head_S; try (eexists; reflexivity).
+    - destruct (followed follow n) as [rhs|] eqn:E; [|eexists; reflexivity].
+      eapply HQh; [apply Hc; left; reflexivity|exact E|cbn in Hf; lia].
+    - destruct cs as [|c r]; [eexists; reflexivity|]. inversion H; subst. apply H2.
+      + intros x Hx. apply Hc. cbn. apply in_or_app. left. exact Hx.
+      + cbn in Hf. lia.
+    - apply IHe; [exact Hc|cbn in Hf; lia].
+  Qed.
+
+  Lemma expr_tail_ok e : forall f,
+    (forall c, In c (all_refs e) -> Q c) -> (f >= expr_size e + extra)%nat ->
+    is_okr (expr_tail follow f e).
+  Proof.
+    induction e using expr_ind'; intros f Hc Hf;
+      (destruct f as [|f]; [cbn in Hf; lia|]); rewrite expr_tail_S; try (eexists; reflexivity).
+    - destruct (followed follow n) as [rhs|] eqn:E; [|eexists; reflexivity].
+      eapply HQt; [apply Hc; left; reflexivity|exact E|cbn in Hf; lia].
+    - destruct (last_opt cs) as [c|] eqn:El; [|eexists; reflexivity].
+      apply last_opt_In in El. rewrite Forall_forall in H. apply (H c El).
+      + intros x Hx. apply Hc. cbn. apply in_flat_map. exists c. split; assumption.
+      + pose proof (list_size_In c cs El). cbn in Hf. unfold list_size in *. lia.
+    - apply IHe; [exact Hc|cbn in Hf; lia].
+  Qed.
+
+  Lemma adjacent_terminals_ok cs : forall f,
+    (forall c, In c (flat_map all_refs cs) -> Q c) -> (f >= list_size cs + extra)%nat ->
+    is_okr (adjacent_terminals follow f cs).
+  Proof.
+    induction cs as [|a r IH]; intros f Hc Hf; [eexists; reflexivity|].
+    destruct r as [|b r']; [eexists; reflexivity|].
+    cbn [adjacent_terminals].
+    assert (Ha : is_okr (expr_tail follow f a)).
+    { apply expr_tail_ok.
+      - intros x Hx. apply Hc. cbn. apply in_or_app. left. exact Hx.
+      - unfold list_size in Hf. cbn in Hf. lia. }
+    assert (Hb : is_okr (expr_head follow f b)).
+    { apply expr_head_ok.
+      - intros x Hx. apply Hc. cbn. apply in_or_app. right. apply in_or_app. left. exact Hx.
+      - unfold list_size in Hf. cbn in Hf. lia. }
+    destruct Ha as [ta Ha]. destruct Hb as [hb Hb]. rewrite Ha, Hb. cbn [obind].
+    assert (Hr : is_okr (adjacent_terminals follow f (b :: r'))).
+    { apply IH.
+      - intros x Hx. apply Hc. cbn [flat_map]. apply in_or_app. right. exact Hx.
+      - unfold list_size in *. cbn in Hf |- *. lia. }
+    destruct ta; try exact Hr. destruct hb; try exact Hr. eexists; reflexivity.
+  Qed.
+End HeadTailOk.
 
 Section Spaces.
   Variable table : list (string * expr).
@@ -277,34 +381,48 @@ Section Spaces.
   Lemma spaces_fine_scheme (extra : nat) (Q : string -> Prop)
         (HQ : forall n rhs f trace within,
             Q n -> assoc n table = Some rhs -> (f >= extra)%nat ->
-            fine (spaces table f rhs trace within)) :
-    forall e f trace within,
+            fine (spaces table f rhs trace within false))
+        (HQh : forall n rhs f, Q n -> assoc n table = Some rhs -> (f >= extra)%nat ->
+                               is_okr (expr_head (Some table) f rhs))
+        (HQt : forall n rhs f, Q n -> assoc n table = Some rhs -> (f >= extra)%nat ->
+                               is_okr (expr_tail (Some table) f rhs)) :
+    forall e f trace within juxt,
       dd_free e -> (forall c, In c (all_refs e) -> Q c) ->
-      (f >= expr_size e + extra)%nat -> fine (spaces table f e trace within).
+      (f >= expr_size e + extra)%nat -> fine (spaces table f e trace within juxt).
   Proof.
     assert (Hlist : forall cs f trace within,
-               Forall (fun e => forall f trace within,
+               Forall (fun e => forall f trace within juxt,
                            dd_free e -> (forall c, In c (all_refs e) -> Q c) ->
-                           (f >= expr_size e + extra)%nat -> fine (spaces table f e trace within)) cs ->
+                           (f >= expr_size e + extra)%nat -> fine (spaces table f e trace within juxt)) cs ->
                dd_free_list cs ->
                (forall c, In c (flat_map all_refs cs) -> Q c) ->
                (f >= list_size cs + extra)%nat ->
-               Forall (fun c => fine (spaces table f c trace within)) cs).
+               Forall (fun c => fine (spaces table f c trace within false)) cs).
     { intros cs f trace within H. induction H as [|x l Hx Hl IH]; intros Hd Hc Hf; constructor.
       - destruct Hd as [Hdx Hdl]. apply Hx; [exact Hdx| |unfold list_size in *; cbn in Hf |- *; lia].
         intros c Hin. apply Hc. cbn. apply in_or_app. left. exact Hin.
       - destruct Hd as [Hdx Hdl]. apply IH; [exact Hdl| |unfold list_size in *; cbn in Hf |- *; lia].
         intros c Hin. apply Hc. cbn. apply in_or_app. right. exact Hin. }
-    induction e using expr_ind'; intros f trace within Hd Hc Hf;
+    induction e using expr_ind'; intros f trace within juxt Hd Hc Hf;
       (destruct f as [|f]; [cbn in Hf; lia|]); rewrite spaces_S; try exact I.
     - (* NontermRef *)
       destruct (assoc n table) as [rhs|] eqn:En; [|exact I].
       apply (HQ n); [apply Hc; left; reflexivity|exact En|cbn in Hf; lia].
     - (* Sequence *)
-      assert (Hs : fine (sp_all (fun c => spaces table f c trace within) cs)).
+      assert (Hs : fine (sp_all (fun c => spaces table f c trace within false) cs)).
       { apply sp_all_fine. apply Hlist; try assumption. cbn in Hf. unfold list_size. lia. }
       destruct (sp_all _ cs); cbn [obind]; try exact Hs.
-      destruct within; [|exact I]. destruct (adjacent_terminals cs) as [[l r]|]; exact I.
+      destruct within; [|exact I].
+      assert (Ha : is_okr (adjacent_terminals (follow_of table juxt) f cs)).
+      { destruct juxt; cbn [follow_of].
+        - apply (adjacent_terminals_ok None O (fun _ => True)).
+          + intros n rhs f0 _ Hn. discriminate.
+          + intros n rhs f0 _ Hn. discriminate.
+          + auto.
+          + cbn in Hf. unfold list_size. lia.
+        - apply (adjacent_terminals_ok (Some table) extra Q); auto.
+          cbn in Hf. unfold list_size. lia. }
+      destruct Ha as [adj Ha]. rewrite Ha. cbn [obind]. destruct adj as [[l r]|]; exact I.
     - (* Alternative *)
       apply sp_all_fine. apply Hlist; try assumption. cbn in Hf. unfold list_size. lia.
     - apply IHe; [exact Hd|exact Hc|cbn in Hf; lia].
@@ -321,24 +439,46 @@ Section Spaces.
   Hypothesis t_size : forall n rhs, assoc n table = Some rhs -> (expr_size rhs <= bound)%nat.
 
   (** below a definition nothing more is entered *)
-  Lemma spaces_fine_closed e f trace within :
-    dd_free e -> closed (map fst table) e -> (f >= expr_size e)%nat ->
-    fine (spaces table f e trace within).
+  Lemma head_ok_closed e f :
+    closed (map fst table) e -> (f >= expr_size e)%nat -> is_okr (expr_head (Some table) f e).
   Proof.
-    intros Hd Hc Hf.
-    apply (spaces_fine_scheme O (fun n => ~ In n (map fst table))); [|exact Hd|exact Hc|lia].
-    intros n rhs f' tr w Hq Hn _. exfalso. apply Hq. eapply assoc_Some_in; eauto.
+    intros Hc Hf.
+    apply (expr_head_ok (Some table) O (fun n => ~ In n (map fst table))); [|exact Hc|lia].
+    intros n rhs f0 Hq Hn _. exfalso. apply Hq. eapply assoc_Some_in; exact Hn.
   Qed.
 
-  Theorem spaces_fine e f trace within :
-    dd_free e -> (f >= expr_size e + bound)%nat -> fine (spaces table f e trace within).
+  Lemma tail_ok_closed e f :
+    closed (map fst table) e -> (f >= expr_size e)%nat -> is_okr (expr_tail (Some table) f e).
+  Proof.
+    intros Hc Hf.
+    apply (expr_tail_ok (Some table) O (fun n => ~ In n (map fst table))); [|exact Hc|lia].
+    intros n rhs f0 Hq Hn _. exfalso. apply Hq. eapply assoc_Some_in; exact Hn.
+  Qed.
+
+  Lemma spaces_fine_closed e f trace within juxt :
+    dd_free e -> closed (map fst table) e -> (f >= expr_size e)%nat ->
+    fine (spaces table f e trace within juxt).
+  Proof.
+    intros Hd Hc Hf.
+    apply (spaces_fine_scheme O (fun n => ~ In n (map fst table))); [| | |exact Hd|exact Hc|lia].
+    - intros n rhs f' tr w Hq Hn _. exfalso. apply Hq. eapply assoc_Some_in; eauto.
+    - intros n rhs f' Hq Hn _. exfalso. apply Hq. eapply assoc_Some_in; eauto.
+    - intros n rhs f' Hq Hn _. exfalso. apply Hq. eapply assoc_Some_in; eauto.
+  Qed.
+
+  Theorem spaces_fine e f trace within juxt :
+    dd_free e -> (f >= expr_size e + bound)%nat -> fine (spaces table f e trace within juxt).
   Proof.
     intros Hd Hf.
-    apply (spaces_fine_scheme bound (fun _ => True)); [|exact Hd|auto|exact Hf].
-    intros n rhs f' tr w _ Hn Hf'. apply spaces_fine_closed.
-    - eapply t_dd; eauto.
-    - eapply t_closed; eauto.
-    - pose proof (t_size _ _ Hn). lia.
+    apply (spaces_fine_scheme bound (fun _ => True)); [| | |exact Hd|auto|exact Hf].
+    - intros n rhs f' tr w _ Hn Hf'. apply spaces_fine_closed.
+      + eapply t_dd; eauto.
+      + eapply t_closed; eauto.
+      + pose proof (t_size _ _ Hn). lia.
+    - intros n rhs f' _ Hn Hf'. apply head_ok_closed; [eapply t_closed; eauto|].
+      pose proof (t_size _ _ Hn). lia.
+    - intros n rhs f' _ Hn Hf'. apply tail_ok_closed; [eapply t_closed; eauto|].
+      pose proof (t_size _ _ Hn). lia.
   Qed.
 End Spaces.
 
@@ -432,7 +572,7 @@ Theorem spaces_after_search_fine defs2 ord e :
   table_dd_free (table0_of defs2) -> dd_free e ->
   resolution_order defs2 = Ok ord ->
   let table := resolve_in_order ord (table0_of defs2) in
-  fine (spaces table (spaces_fuel table e) e [] false).
+  fine (spaces table (spaces_fuel table e) e [] false false).
 Proof.
   intros Hdd He Ho table.
   apply (spaces_fine table (fold_right (fun p n => expr_size (snd p) + n)%nat O table)).
@@ -459,14 +599,14 @@ Proof.
   pose proof (resolution_order_fine (defs2_of (spec_of builtins sh us fs (defs1_of defs0)) (defs1_of defs0))) as Ho.
   destruct (resolution_order _) as [ord| | |] eqn:Eo; cbn [obind]; try exact Ho.
   fold (table0_of (defs2_of (spec_of builtins sh us fs (defs1_of defs0)) (defs1_of defs0))).
-  match goal with |- context [spaces ?t ?f ?e [] false] =>
+  match goal with |- context [spaces ?t ?f ?e [] false false] =>
     change f with (spaces_fuel t e);
-    assert (Hsp : fine (spaces t (spaces_fuel t e) e [] false)) end.
+    assert (Hsp : fine (spaces t (spaces_fuel t e) e [] false false)) end.
   { apply spaces_after_search_fine; [| |exact Eo].
     - apply table0_dd_free; [|apply defs1_dd_free]. intros e. apply specialize_dd_free.
     - apply specialize_dd_free. apply distribute_dd_free. }
-  match goal with |- context [spaces ?t ?f ?e [] false] =>
-    destruct (spaces t f e [] false) as [[]| | |] end; cbn [obind]; exact Hsp.
+  match goal with |- context [spaces ?t ?f ?e [] false false] =>
+    destruct (spaces t f e [] false false) as [[]| | |] end; cbn [obind]; exact Hsp.
 Qed.
 
 Lemma fine_cases {A} (x : res A) : fine x <-> (exists a, x = Ok a) \/ (exists e, x = Err e).
@@ -492,8 +632,8 @@ Theorem spaces_after_search_total defs2 ord e :
   table_dd_free (table0_of defs2) -> dd_free e ->
   resolution_order defs2 = Ok ord ->
   let table := resolve_in_order ord (table0_of defs2) in
-  spaces table (spaces_fuel table e) e [] false = Ok tt \/
-  exists err, spaces table (spaces_fuel table e) e [] false = Err err.
+  spaces table (spaces_fuel table e) e [] false false = Ok tt \/
+  exists err, spaces table (spaces_fuel table e) e [] false false = Err err.
 Proof.
   intros Hdd He Ho table.
   pose proof (spaces_after_search_fine defs2 ord e Hdd He Ho) as H. cbn zeta in H.
